@@ -48,6 +48,37 @@ func VerifC15_Bound() {
 	vReach("ran")
 }
 
+// The bound also holds while the context is being cancelled: three independent
+// tasks and one dependent contend for 1-2 slots, any of them cancels the
+// context when it starts or when it ends.
+func VerifC15_BoundUnderCancellation() {
+	vNativeReset()
+	s := &dagScenario{n: 4}
+	s.dep = make([][]bool, 4)
+	for i := range s.dep {
+		s.dep[i] = make([]bool, 4)
+	}
+	s.dep[3][0] = vBool("e_3_0")
+	s.outcome = make([][]int, 4)
+	for i := range s.outcome {
+		s.outcome[i] = make([]int, 1)
+	}
+	s.limit = vInt("limit", 1, 2)
+	s.cancelBy = vInt("cancelby", 0, 2)
+	s.cancelEarly = vBool("cancelearly")
+	s.attempts = make([]int, 4)
+	s.errs = make([]error, 4)
+	for i := range s.errs {
+		s.errs[i] = fmt.Errorf("task %d failed", i)
+	}
+	s.build()
+	err := s.run()
+	vObserve("failed", err != nil)
+	vAssert("never-more-than-the-limit-under-cancellation", s.maxInside <= s.limit)
+	s.orderingAsserts()
+	vReach("ran")
+}
+
 // Buffered output: each attempt's output reaches the writer as one contiguous block.
 func VerifC15_BufferedOutput() {
 	vNativeReset()
